@@ -543,6 +543,12 @@ func cmdCheck(args []string) int {
 				if v.Kind == "hang" && o.Result == "timeout" {
 					confirmed = true
 				}
+				if v.Kind == "monitor" && (strings.HasPrefix(o.Result, "assert-fail:") || strings.HasPrefix(o.Result, "panic:")) {
+					// engine-side monitors (double release, use after release) have no native
+					// counterpart; the defect counts as reproduced when the same vector makes a
+					// harness assertion fail or the real code panic natively
+					confirmed = true
+				}
 				if strings.HasPrefix(kind, "probe:") {
 					id := strings.TrimPrefix(kind, "probe:")
 					if confirmed || strings.HasPrefix(o.Result, "assert-fail:") || strings.HasPrefix(o.Result, "panic:") {
